@@ -60,6 +60,16 @@ func toSlice(array interface{}) (slice interface{}) {
 	sliceType := reflect.SliceOf(t.Elem())
 	sliceStruct := unpackEFace(&slice)
 	sliceStruct.typ = reflect2.PtrOf(sliceType)
+	if reflect2.Type2(t).LikePtr() {
+		// a pointer-shaped array (such as [1]*T) is stored in the interface word itself
+		elem := reflect2.PtrOf(array)
+		sliceStruct.ptr = unsafe.Pointer(&sliceHeader{
+			Data: unsafe.Pointer(&elem),
+			Len:  t.Len(),
+			Cap:  t.Len(),
+		})
+		return
+	}
 	sliceStruct.ptr = unsafeToSlice(array, t.Len())
 	return
 }
